@@ -58,6 +58,8 @@ class _Contain(Flow):
                 if isinstance(t, ast.Name):
                     if isinstance(s.value, ast.Constant) and isinstance(s.value.value, bool):
                         st = self._set(st, t.id, s.value.value)
+                    elif isinstance(s.value, ast.Name):
+                        st = self._set(st, t.id, self._get(st, s.value.id))  # a plain copy keeps typestate or flag value
                     else:
                         st = self._set(st, t.id, self._status(s.value, st))
                 elif isinstance(t, ast.Tuple):
